@@ -20,6 +20,11 @@ type AudioCase struct {
 	Pattern int    `json:"pattern"`
 	Nil     bool   `json:"nil"`    // opuspacket only: nil instead of empty
 	Marker  bool   `json:"marker"` // argument of IsPartitionTail
+	// More: lengths of further inputs passed to the SAME payloader value afterwards; the fragments of
+	// every earlier call must still hold that call's input at the end
+	More []int `json:"more,omitempty"`
+	// Spare: the input is the first Len bytes of a buffer with this much spare capacity (must stay untouched)
+	Spare int `json:"spare,omitempty"`
 }
 
 var subC16 = register("C16", "audio", checkC16)
@@ -29,6 +34,18 @@ func checkC16(r *run, c *AudioCase) (CaseInfo, error) {
 	ci.class("codec:" + c.Codec)
 	in := expand(c.Seed, c.Pattern, c.Len)
 	orig := clone(in)
+	var guard []byte
+	if c.Spare > 0 {
+		backing := make([]byte, c.Len+c.Spare)
+		copy(backing, in)
+		for i := c.Len; i < len(backing); i++ {
+			backing[i] = 0xA5 ^ byte(i)
+		}
+		in = backing[:c.Len]
+		guard = clone(backing[c.Len:])
+		ci.class("input-with-spare-capacity")
+	}
+	spareIntact := func() bool { return c.Spare == 0 || bytes.Equal(in[:c.Len+c.Spare][c.Len:], guard) }
 	switch c.Codec {
 	case "g711", "g722":
 		var pl rtp.Payloader = &codecs.G711Payloader{}
@@ -65,6 +82,29 @@ func checkC16(r *run, c *AudioCase) (CaseInfo, error) {
 		if len(frags) != want {
 			return ci, failf("%s.Payload(mtu %d, %d bytes): %d fragments, want %d", c.Codec, c.MTU, c.Len, len(frags), want)
 		}
+		if !spareIntact() {
+			return ci, failf("%s.Payload(mtu %d, %d bytes) wrote into the spare capacity behind its input", c.Codec, c.MTU, c.Len)
+		}
+		for k, l := range c.More {
+			in2 := expand(c.Seed+uint64(k)+1, c.Pattern, l)
+			orig2 := clone(in2)
+			frags2 := pl.Payload(c.MTU, in2)
+			var cat2 []byte
+			for _, f := range frags2 {
+				cat2 = append(cat2, f...)
+			}
+			if !bytes.Equal(cat2, orig2) {
+				return ci, failf("%s payloader reused: call %d (mtu %d, %d bytes) returns fragments that do not concatenate to its input", c.Codec, k+2, c.MTU, l)
+			}
+			cat = cat[:0]
+			for _, f := range frags {
+				cat = append(cat, f...)
+			}
+			if !bytes.Equal(cat, orig) {
+				return ci, failf("%s payloader reused: after call %d (mtu %d, %d bytes) the fragments returned by the first call (%d bytes) no longer hold its input", c.Codec, k+2, c.MTU, l, c.Len)
+			}
+			ci.class("payloader-reused")
+		}
 		if len(frags) >= 2 {
 			ci.class("multi-fragment")
 		}
@@ -90,6 +130,23 @@ func checkC16(r *run, c *AudioCase) (CaseInfo, error) {
 		}
 		if !bytes.Equal(in, orig) {
 			return ci, failf("OpusPayloader fragment aliases the input (input changed when the fragment was overwritten)")
+		}
+		if !spareIntact() {
+			return ci, failf("OpusPayloader.Payload(mtu %d, %d bytes) wrote into the spare capacity behind its input", c.MTU, c.Len)
+		}
+		for i := range frags[0] {
+			frags[0][i] ^= 0xFF
+		}
+		for k, l := range c.More {
+			in2 := expand(c.Seed+uint64(k)+1, c.Pattern, l)
+			frags2 := pl.Payload(c.MTU, in2)
+			if len(frags2) != 1 || !bytes.Equal(frags2[0], in2) {
+				return ci, failf("OpusPayloader reused: call %d (%d bytes) returns %d fragments / different bytes", k+2, l, len(frags2))
+			}
+			if !bytes.Equal(frags[0], orig) {
+				return ci, failf("OpusPayloader reused: after call %d the fragment returned by the first call no longer holds its input", k+2)
+			}
+			ci.class("payloader-reused")
 		}
 		ci.Nontrivial = c.Len > 0
 		if c.Len > int(c.MTU) {
@@ -151,6 +208,18 @@ func genAudioCase(t *rapid.T) *AudioCase {
 	}
 	if c.Len > 10000 {
 		c.Len = 10000
+	}
+	if rapid.IntRange(0, 2).Draw(t, "reuse") == 0 {
+		for i, k := 0, rapid.IntRange(1, 3).Draw(t, "nmore"); i < k; i++ {
+			// shorter, equal and longer later inputs (a payloader that keeps a buffer reuses it when it is large enough)
+			c.More = append(c.More, rapid.OneOf(rapid.IntRange(0, c.Len+1), rapid.IntRange(0, 3000), rapid.Just(c.Len)).Draw(t, "morelen"))
+		}
+	}
+	if rapid.IntRange(0, 3).Draw(t, "spare") == 0 {
+		c.Spare = biased(t, "sparelen", 1, 4096, 1, int(c.MTU), 2*int(c.MTU))
+		if c.Spare > 4096 {
+			c.Spare = 4096
+		}
 	}
 	if rapid.IntRange(0, 99).Draw(t, "jumbo") == 0 {
 		// beyond the stated 0-10000: lengths that do not fit 16 bits, with an MTU that keeps the fragment count small
